@@ -187,7 +187,7 @@ def desc(d):
     acts = g.lst(["(%s, %s)" % (z(pu), s(ty)) for pu, ty in d["actions"]])
     pus = g.lst([z(p) for p in d["pus"]])
     asis = g.lst(["(%s, %s)" % (s(n), g.fl(v)) for n, v in d["asis"]])
-    inv = g.lst([bits(k) for k in d["invalid"]])
+    inv = g.lst(["(%s, %s)" % (bits(k), s(tok)) for k, tok in d["invalid"]])
     return "Definition d%d : desc CV := mkdesc %s %s %s %s.\n" % (d["id"], acts, pus, asis, inv)
 
 
